@@ -1,379 +1,373 @@
 /-
   C10 — building from cmap text yields a well-formed map or an error.
 
-  The property is FALSE of the current code (`build_2d_from_cmap_file` validates nothing, D5).
-  This file contains
+  Since the loader fix 7170072 (`build_2d_from_cmap_file` validates the map it builds) the
+  property HOLDS of the model of the code:
 
-  * one proved negation witness per failure class (`C10_fails_*`), each a concrete 3-dart file
-    whose section layout is accepted (`parseFile f = .ok _`) and on which `load` returns an
-    ill-formed map, returns a map that disagrees with the text, or panics;
-  * the validator `validFile` a fixed loader would run on the parsed file, and its soundness
-    `C10_validated_load_wf`: for EVERY file (any size) that passes it, `build` neither panics
-    nor fails and returns a well-formed 2-map whose β images and removal flags are those written
-    in the text.  This is the statement the property reduces to once the loader rejects the
-    files that do not pass the validator.
+  * `C10_build_wf_or_error` / `C10_load_wf_or_error`: for EVERY parsed file `cf` (every text whose
+    section layout is accepted by `parseFile`, any size), `build ns cf` is `.err _`, or `.ok m`
+    with `WF 3 m` and `Agrees cf m` — the number of darts, every β image (null-dart column
+    included: the token written for `β_i(d)` is a numeral denoting the stored image), the removal
+    flags (exactly the ids named in `[UNUSED]`), and the vertex storage (the lines of
+    `[VERTICES]` applied in order, the last line naming an id wins; every line names an existing,
+    non-null, not removed dart).  `C10_load_never_panics`: `load` never returns `panic`.
+  * the former negation witnesses D5a–D5g are kept as `example`s: each of those files is now
+    REJECTED with `InconsistentData`.
 -/
 import Honeycomb.Lemmas.CmapText
 
 namespace HC.C10
 open HC HC.CmapText
 
-/-! ## evaluation helpers -/
+/-! ## what "agrees with the text" means -/
 
-def isPanic : Out Err (Map Val) → Bool
-  | .panic => true
-  | _ => false
-
-theorem eq_panic_of_isPanic {o : Out Err (Map Val)} (h : isPanic o = true) : o = .panic := by
-  cases o <;> simp_all [isPanic]
-
-/-- the load succeeds and the map satisfies a Boolean test -/
-def loadsTo (ns : Nat) (f : List Line) (p : Map Val → Bool) : Bool :=
-  match load ns f with
-  | .ok m => p m
-  | _ => false
-
-theorem loadsTo_spec {ns : Nat} {f : List Line} {p : Map Val → Bool} (h : loadsTo ns f p = true) :
-    ∃ m, load ns f = .ok m ∧ p m = true := by
-  unfold loadsTo at h
-  cases hl : load ns f with
-  | ok m => rw [hl] at h; exact ⟨m, rfl, h⟩
-  | err e => rw [hl] at h; cases h
-  | retry => rw [hl] at h; cases h
-  | panic => rw [hl] at h; cases h
-
-/-- the section layout is accepted (`CMapFile::try_from` returns `Ok`) -/
-def LayoutOK (f : List Line) : Prop := ∃ cf, parseFile f = .ok cf
-
-def layoutOK (f : List Line) : Bool :=
-  match parseFile f with
-  | .ok _ => true
-  | .error _ => false
-
-theorem layoutOK_spec {f : List Line} (h : layoutOK f = true) : LayoutOK f := by
-  unfold layoutOK at h
-  unfold LayoutOK
-  cases hp : parseFile f with
-  | ok cf => exact ⟨cf, rfl⟩
-  | error e => rw [hp] at h; cases h
-
-/-- the token written for `β_i(d)` in a parsed file, and its value -/
+/-- the token written for `β_i(d)` in a parsed file -/
 def rowTok (cf : CFile) (i d : Nat) : String := (cf.betas.getD i []).getD d ""
-def tβ (cf : CFile) (i d : Nat) : Nat := (parseU32 (rowTok cf i d)).getD 0
 
-/-! ## negation witnesses (the current loader) -/
-
-def header (n : String) : List Line := [["[META]"], [pkgVersion, "2", n], ["[BETAS]"]]
-
-/-- β1(3) = 9 in a 3-dart file -/
-def fileRange : List Line :=
-  header "3" ++ [["0", "0", "1", "0"], ["0", "2", "0", "9"], ["0", "0", "0", "0"]]
-
-/-- D5a: an image `≥ n_darts` is stored as given -/
-theorem C10_fails_out_of_range :
-    ∃ f m, LayoutOK f ∧ load 1 f = .ok m ∧ ¬ WF 3 m ∧ ¬ m.β 1 3 < m.n := by
-  have h : loadsTo 1 fileRange (fun m => !decide (WF 3 m) && !decide (m.β 1 3 < m.n)) = true := by
-    decide +kernel
-  obtain ⟨m, hl, hp⟩ := loadsTo_spec h
-  simp only [Bool.and_eq_true, Bool.not_eq_true', decide_eq_false_iff_not] at hp
-  exact ⟨fileRange, m, layoutOK_spec (by decide +kernel), hl, hp.1, hp.2⟩
-
-/-- β1(1) = 2 but β0(2) = 0 -/
-def fileInverse : List Line :=
-  header "3" ++ [["0", "0", "0", "0"], ["0", "2", "0", "0"], ["0", "0", "0", "0"]]
-
-/-- D5b: β0 is not checked against β1 -/
-theorem C10_fails_not_inverse :
-    ∃ f m, LayoutOK f ∧ load 1 f = .ok m ∧ ¬ WF 3 m ∧ m.β 1 1 = 2 ∧ m.β 0 2 ≠ 1 := by
-  have h : loadsTo 1 fileInverse
-      (fun m => !decide (WF 3 m) && decide (m.β 1 1 = 2) && !decide (m.β 0 2 = 1)) = true := by
-    decide +kernel
-  obtain ⟨m, hl, hp⟩ := loadsTo_spec h
-  simp only [Bool.and_eq_true, Bool.not_eq_true', decide_eq_false_iff_not, decide_eq_true_eq] at hp
-  exact ⟨fileInverse, m, layoutOK_spec (by decide +kernel), hl, hp.1.1, hp.1.2, hp.2⟩
-
-/-- β2(1) = 2 but β2(2) = 0 -/
-def fileBeta2 : List Line :=
-  header "3" ++ [["0", "0", "0", "0"], ["0", "0", "0", "0"], ["0", "2", "0", "0"]]
-
-/-- D5c: β2 is not checked to be an involution -/
-theorem C10_fails_asymmetric_beta2 :
-    ∃ f m, LayoutOK f ∧ load 1 f = .ok m ∧ ¬ WF 3 m ∧ m.β 2 1 = 2 ∧ m.β 2 2 ≠ 1 := by
-  have h : loadsTo 1 fileBeta2
-      (fun m => !decide (WF 3 m) && decide (m.β 2 1 = 2) && !decide (m.β 2 2 = 1)) = true := by
-    decide +kernel
-  obtain ⟨m, hl, hp⟩ := loadsTo_spec h
-  simp only [Bool.and_eq_true, Bool.not_eq_true', decide_eq_false_iff_not, decide_eq_true_eq] at hp
-  exact ⟨fileBeta2, m, layoutOK_spec (by decide +kernel), hl, hp.1.1, hp.1.2, hp.2⟩
-
-/-- the text gives the null dart the image β1(0) = 3 -/
-def fileNull : List Line :=
-  header "3" ++ [["0", "0", "0", "0"], ["3", "0", "0", "0"], ["0", "0", "0", "0"]]
-
-/-- D5d: the null-dart column is never read: the text says β1(0) = 3, the returned map has
-    β1(0) = 0 and no error is raised -/
-theorem C10_fails_null_column_ignored :
-    ∃ f cf m, parseFile f = .ok cf ∧ load 1 f = .ok m ∧ tβ cf 1 0 = 3 ∧ m.β 1 0 = 0 := by
-  have h : loadsTo 1 fileNull (fun m => decide (m.β 1 0 = 0)) = true := by decide +kernel
-  obtain ⟨m, hl, hp⟩ := loadsTo_spec h
-  obtain ⟨cf, hcf⟩ := layoutOK_spec (f := fileNull) (by decide +kernel)
-  have ht : tβ cf 1 0 = 3 := by
-    have : (match parseFile fileNull with | .ok cf => decide (tβ cf 1 0 = 3) | .error _ => false) = true := by
-      decide +kernel
-    rw [hcf] at this
-    simpa using this
-  exact ⟨fileNull, cf, m, hcf, hl, ht, by simpa using hp⟩
-
-/-- dart 1 is 1-linked to dart 2 and listed as unused -/
-def fileUnusedLinked : List Line :=
-  header "3" ++ [["0", "0", "1", "0"], ["0", "2", "0", "0"], ["0", "0", "0", "0"], ["[UNUSED]"], ["1"]]
-
-/-- D5e: `remove_free_dart` asserts that the dart is free -/
-theorem C10_fails_unused_linked_panics : ∃ f, LayoutOK f ∧ load 1 f = .panic :=
-  ⟨fileUnusedLinked, layoutOK_spec (by decide +kernel), eq_panic_of_isPanic (by decide +kernel)⟩
-
-def fileUnusedRepeated : List Line :=
-  header "3" ++ [["0", "0", "0", "0"], ["0", "0", "0", "0"], ["0", "0", "0", "0"], ["[UNUSED]"], ["3", "3"]]
-
-/-- D5e: `remove_free_dart` asserts that the dart was not already removed -/
-theorem C10_fails_unused_repeated_panics : ∃ f, LayoutOK f ∧ load 1 f = .panic :=
-  ⟨fileUnusedRepeated, layoutOK_spec (by decide +kernel), eq_panic_of_isPanic (by decide +kernel)⟩
-
-def fileUnusedRange : List Line :=
-  header "3" ++ [["0", "0", "0", "0"], ["0", "0", "0", "0"], ["0", "0", "0", "0"], ["[UNUSED]"], ["4"]]
-
-/-- D5f: an unused id `≥ n_darts` indexes the β rows out of bounds -/
-theorem C10_fails_unused_out_of_range_panics : ∃ f, LayoutOK f ∧ load 1 f = .panic :=
-  ⟨fileUnusedRange, layoutOK_spec (by decide +kernel), eq_panic_of_isPanic (by decide +kernel)⟩
-
-def fileVertexRange : List Line :=
-  header "3" ++ [["0", "0", "0", "0"], ["0", "0", "0", "0"], ["0", "0", "0", "0"], ["[VERTICES]"],
-    ["4", "0", "0"]]
-
-/-- D5f: a vertex id `≥ n_darts` indexes the vertex storage out of bounds -/
-theorem C10_fails_vertex_out_of_range_panics : ∃ f, LayoutOK f ∧ load 1 f = .panic :=
-  ⟨fileVertexRange, layoutOK_spec (by decide +kernel), eq_panic_of_isPanic (by decide +kernel)⟩
-
-/-- dart 3 is removed and the null dart does not exist, yet both get coordinates -/
-def fileVertexMissing : List Line :=
-  header "3" ++ [["0", "0", "0", "0"], ["0", "0", "0", "0"], ["0", "0", "0", "0"], ["[UNUSED]"], ["3"],
-    ["[VERTICES]"], ["3", "1", "1"], ["0", "2", "2"]]
-
-/-- D5g: vertices are stored for the null dart and for a removed dart -/
-theorem C10_fails_vertex_on_missing_dart :
-    ∃ f m, LayoutOK f ∧ load 1 f = .ok m ∧ m.unused 3 = true ∧ (m.att 0 3).isSome = true ∧
-      (m.att 0 0).isSome = true := by
-  have h : loadsTo 1 fileVertexMissing
-      (fun m => m.unused 3 && (m.att 0 3).isSome && (m.att 0 0).isSome) = true := by
-    decide +kernel
-  obtain ⟨m, hl, hp⟩ := loadsTo_spec h
-  simp only [Bool.and_eq_true] at hp
-  exact ⟨fileVertexMissing, m, layoutOK_spec (by decide +kernel), hl, hp.1.1, hp.1.2, hp.2⟩
-
-/-! ## the validator of a fixed loader, and its soundness -/
-
-/-- ids named by the `[UNUSED]` section -/
+/-- tokens / ids of the `[UNUSED]` section -/
 def unusedToks (cf : CFile) : List String := (cf.unused.getD []).flatten
 def unusedIds (cf : CFile) : List Nat := (unusedToks cf).map fun t => (parseU32 t).getD 0
 
-def validVertexLine (n : Nat) (ids : List Nat) (l : Line) : Bool :=
-  match l with
-  | [tid, tx, ty] =>
-    match parseU32 tid with
-    | some id => decide (id < n) && decide (id ≠ 0) && !ids.contains id &&
-        (parseCoord tx).isSome && (parseCoord ty).isSome
-    | none => false
-  | _ => false
+structure Agrees (cf : CFile) (m : Map Val) : Prop where
+  n : m.n = cf.nd + 1
+  /-- every image, null-dart column included, is the one written in the text -/
+  β : ∀ i, i < 3 → ∀ d, d < cf.nd + 1 → parseU32 (rowTok cf i d) = some (m.β i d)
+  /-- the removed darts are exactly the ids named in `[UNUSED]` (all numerals) -/
+  unusedNum : ∀ t ∈ unusedToks cf, (parseU32 t).isSome = true
+  unused : ∀ d, m.unused d = decide (d ∈ unusedIds cf)
+  /-- vertex storage = the `[VERTICES]` lines applied in order (last line wins) -/
+  vertex : ∀ e, m.att 0 e = applyLines (cf.vertices.getD []) (fun _ => none) e
+  /-- every vertex line is well formed and names an existing, non-null, not removed dart -/
+  vertexLines : ∀ l ∈ cf.vertices.getD [], ∃ v, parseVertexLine l = .ok v ∧ v.1 ≠ 0 ∧ v.1 < m.n ∧
+    m.unused v.1 = false
 
-/-- what a validating loader checks after `CMapFile::try_from`: dimension, three β lines of
-    `n_darts` numerals (null column included and null), images in range, β0/β1 inverse, β2 a
-    fixed-point-free involution, unused ids in range / free / distinct, vertex lines well formed
-    with ids of existing (non-null, non-removed) darts -/
-def validFile (cf : CFile) : Bool :=
-  let n := cf.nd + 1
-  decide (cf.dim = 2) && decide (cf.betas.length = 3) &&
-  (List.range 3).all (fun i => decide ((cf.betas.getD i []).length = n)) &&
-  (List.range 3).all (fun i => (List.range n).all fun d => (parseU32 (rowTok cf i d)).isSome) &&
-  (List.range 3).all (fun i => decide (tβ cf i 0 = 0)) &&
-  (List.range 3).all (fun i => (List.range n).all fun d => decide (tβ cf i d < n)) &&
-  (List.range n).all (fun d => decide ((tβ cf 1 d ≠ 0 → tβ cf 0 (tβ cf 1 d) = d) ∧
-    (tβ cf 0 d ≠ 0 → tβ cf 1 (tβ cf 0 d) = d))) &&
-  (List.range n).all (fun d => decide (tβ cf 2 d ≠ 0 → tβ cf 2 (tβ cf 2 d) = d ∧ tβ cf 2 d ≠ d)) &&
-  (unusedToks cf).all (fun t => (parseU32 t).isSome) &&
-  (unusedIds cf).all (fun d => decide (d < n) && decide (tβ cf 0 d = 0) && decide (tβ cf 1 d = 0) &&
-    decide (tβ cf 2 d = 0)) &&
-  decide (unusedIds cf).Nodup &&
-  (cf.vertices.getD []).all (validVertexLine n (unusedIds cf))
+/-! ## the property -/
 
-/-- **Soundness of the validator** (all sizes): a parsed file that passes `validFile` is built
-    without panic or error into a well-formed 2-map whose β images and removal flags are the
-    ones written in the text. -/
-theorem C10_validated_load_wf (ns : Nat) (hns : 0 < ns) (cf : CFile) (hv : validFile cf = true) :
-    ∃ m, build ns cf = .ok m ∧ WF 3 m ∧ m.n = cf.nd + 1 ∧
-      (∀ i, i < 3 → ∀ d, d < cf.nd + 1 → m.β i d = tβ cf i d) ∧
-      (∀ d, m.unused d = decide (d ∈ unusedIds cf)) := by
-  unfold validFile at hv
-  simp only [Bool.and_eq_true, decide_eq_true_eq, List.all_eq_true, List.mem_range] at hv
-  obtain ⟨⟨⟨⟨⟨⟨⟨⟨⟨⟨⟨hdim, hlen⟩, hrow⟩, hparse⟩, hnull⟩, hrange⟩, hinv⟩, hinvol⟩, hup⟩, hufree⟩, hund⟩, hvert⟩ := hv
-  -- the three β lines
-  obtain ⟨l0, l1, l2, hb⟩ : ∃ l0 l1 l2, cf.betas = [l0, l1, l2] := by
-    match hbs : cf.betas, hlen with
-    | [a, b, c], _ => exact ⟨a, b, c, rfl⟩
-  have hl0 : l0.length = cf.nd + 1 := by have := hrow 0 (by omega); rw [hb] at this; exact this
-  have hl1 : l1.length = cf.nd + 1 := by have := hrow 1 (by omega); rw [hb] at this; exact this
-  have hl2 : l2.length = cf.nd + 1 := by have := hrow 2 (by omega); rw [hb] at this; exact this
-  have hg0 : ∀ e, l0.getD e "" = rowTok cf 0 e := fun e => by unfold rowTok; rw [hb]; rfl
-  have hg1 : ∀ e, l1.getD e "" = rowTok cf 1 e := fun e => by unfold rowTok; rw [hb]; rfl
-  have hg2 : ∀ e, l2.getD e "" = rowTok cf 2 e := fun e => by unfold rowTok; rw [hb]; rfl
-  have hptok : ∀ i, i < 3 → ∀ e, e < cf.nd + 1 → parseU32 (rowTok cf i e) = some (tβ cf i e) := by
-    intro i hi e he
-    have := hparse i hi e he
-    unfold tβ
-    cases hp : parseU32 (rowTok cf i e) with
-    | none => rw [hp] at this; cases this
-    | some v => rfl
-  -- stage 1
-  have hsz0 : Sized 3 (Map.empty 3 ns (cf.nd + 1) : Map Val) := sized_empty ns _ (by omega)
-  obtain ⟨m1, hrun1, hs1, hn1, hu1, ha1, hβ1⟩ :=
-    betasLoop_ok (rowTok cf) (tβ cf) cf.nd 1 (Map.empty 3 ns (cf.nd + 1)) hsz0
-      (by show 1 + cf.nd ≤ cf.nd + 1; omega)
-      (fun i hi e _ he => hptok i hi e (by omega))
-  have hn1' : m1.n = cf.nd + 1 := hn1
-  have hβ1' : ∀ i, i < 3 → ∀ d, d < cf.nd + 1 → m1.β i d = tβ cf i d := by
-    intro i hi d hd
-    rw [hβ1 i d]
-    by_cases h0 : d = 0
-    · subst h0
-      simp [β_empty, hnull i hi]
-    · have : i < 3 ∧ 1 ≤ d ∧ d < 1 + cf.nd := by omega
-      simp [this]
-  have hr1 : betasLoop 1 (l0.drop 1) (l1.drop 1) (l2.drop 1) (Map.empty 3 ns (cf.nd + 1)) = .ok m1 := by
-    rw [drop1_eq_map l0, drop1_eq_map l1, drop1_eq_map l2, hl0, hl1, hl2]
-    simp only [Nat.add_sub_cancel, hg0, hg1, hg2]
-    exact hrun1
-  -- stage 2
-  have hun1 : ∀ d, m1.unused d = false := by
-    intro d
-    show rd m1.u d = false
-    rw [hu1]; exact unused_empty _ _ _
-  obtain ⟨m2, hrun2, hs2, hn2, hb2, ha2, hu2⟩ :=
-    unusedLoop_ok (unusedToks cf) (unusedIds cf) m1 (parsed_of_all _ hup) hund hs1
-      (fun d hd => by
-        obtain ⟨⟨⟨hdn, f0⟩, f1⟩, f2⟩ := hufree d hd
-        refine ⟨by rw [hn1']; exact hdn, ?_, hun1 d⟩
-        rw [isFree3, hβ1' 0 (by omega) d hdn, hβ1' 1 (by omega) d hdn, hβ1' 2 (by omega) d hdn,
-          f0, f1, f2]
-        rfl)
-  -- stage 3
-  have ha0 : 0 < m2.a.size := by rw [ha2, ha1, size_a_empty]; exact hns
-  obtain ⟨m3, hrun3⟩ := verticesLoop_succeeds (cf.vertices.getD []) m2 hs2 ha0 (by
-    intro l hl
-    have hvl := hvert l hl
-    unfold validVertexLine at hvl
-    match l, hvl with
-    | [tid, tx, ty], hvl =>
-      simp only at hvl
-      cases hp : parseU32 tid with
-      | none => rw [hp] at hvl; cases hvl
-      | some id =>
-        rw [hp] at hvl
-        simp only [Bool.and_eq_true, decide_eq_true_eq] at hvl
-        obtain ⟨⟨⟨⟨hid, _⟩, _⟩, hx⟩, hy⟩ := hvl
-        obtain ⟨x, hx⟩ := Option.isSome_iff_exists.mp hx
-        obtain ⟨y, hy⟩ := Option.isSome_iff_exists.mp hy
-        exact ⟨tid, tx, ty, id, x, y, rfl, hp, hx, hy, by rw [hn2, hn1']; exact hid⟩)
-  obtain ⟨hs3, hn3, hb3, hu3⟩ := verticesLoop_frame _ _ _ hs2 hrun3
-  have hn3' : m3.n = cf.nd + 1 := hn3.trans (hn2.trans hn1')
-  have hβ3 : ∀ i d, m3.β i d = m1.β i d := by
-    intro i d
-    show rd (rd m3.b i) d = rd (rd m1.b i) d
-    rw [hb3, hb2]
-  have hβ : ∀ i, i < 3 → ∀ d, d < cf.nd + 1 → m3.β i d = tβ cf i d :=
-    fun i hi d hd => (hβ3 i d).trans (hβ1' i hi d hd)
-  have hun3 : ∀ d, m3.unused d = decide (d ∈ unusedIds cf) := by
-    intro d
-    show rd m3.u d = _
-    rw [hu3]
-    show m2.unused d = _
-    rw [hu2 d, hun1 d, Bool.false_or]
-  refine ⟨m3, build_of_stages hdim hb hl0 hl1 hl2 hr1 hrun2 hrun3, ⟨hs3, ?_⟩, hn3', hβ, hun3⟩
-  -- WFβ from the validated table
-  constructor
-  · intro i hi
-    rw [hβ i hi 0 (by omega)]; exact hnull i hi
-  · intro i hi d hd
-    rw [hn3'] at hd ⊢
-    rw [hβ i hi d hd]; exact hrange i hi d hd
-  · intro d hd h
-    rw [hn3'] at hd
-    rw [hβ 1 (by omega) d hd] at h ⊢
-    rw [hβ 0 (by omega) _ (hrange 1 (by omega) d hd)]
-    exact (hinv d hd).1 h
-  · intro d hd h
-    rw [hn3'] at hd
-    rw [hβ 0 (by omega) d hd] at h ⊢
-    rw [hβ 1 (by omega) _ (hrange 0 (by omega) d hd)]
-    exact (hinv d hd).2 h
-  · intro i hi h2 d hd h
-    have hi2 : i = 2 := by omega
-    subst hi2
-    rw [hn3'] at hd
-    rw [hβ 2 (by omega) d hd] at h ⊢
-    rw [hβ 2 (by omega) _ (hrange 2 (by omega) d hd)]
-    exact hinvol d hd h
-  · intro d hd hu i hi
-    rw [hn3'] at hd
-    rw [hun3 d] at hu
-    have hmem : d ∈ unusedIds cf := by simpa using hu
-    obtain ⟨⟨⟨_, f0⟩, f1⟩, f2⟩ := hufree d hmem
-    rw [hβ i hi d hd]
-    have : i = 0 ∨ i = 1 ∨ i = 2 := by omega
-    rcases this with rfl | rfl | rfl
-    · exact f0
-    · exact f1
-    · exact f2
+theorem C10_build_wf_or_error (ns : Nat) (hns : 0 < ns) (cf : CFile) :
+    (∃ e, build ns cf = .err e) ∨ (∃ m, build ns cf = .ok m ∧ WF 3 m ∧ Agrees cf m) := by
+  by_cases hd : cf.dim = 2
+  swap
+  · exact .inl ⟨_, by unfold build; rw [if_pos hd]⟩
+  have hdn : ¬ cf.dim ≠ 2 := not_not.mpr hd
+  match hb : cf.betas with
+  | [] => exact .inl ⟨_, by unfold build; rw [if_neg hdn]; simp only [hb]⟩
+  | [_] => exact .inl ⟨_, by unfold build; rw [if_neg hdn]; simp only [hb]⟩
+  | [_, _] => exact .inl ⟨_, by unfold build; rw [if_neg hdn]; simp only [hb]⟩
+  | _ :: _ :: _ :: _ :: _ => exact .inl ⟨_, by unfold build; rw [if_neg hdn]; simp only [hb]⟩
+  | [l0, l1, l2] =>
+    by_cases h0 : l0.length = cf.nd + 1
+    swap
+    · exact .inl ⟨_, by unfold build; rw [if_neg hdn]; simp only [hb]; rw [if_pos h0]⟩
+    by_cases h1 : l1.length = cf.nd + 1
+    swap
+    · exact .inl ⟨_, by
+        unfold build; rw [if_neg hdn]; simp only [hb]
+        rw [if_neg (not_not.mpr h0), if_pos h1]⟩
+    by_cases h2 : l2.length = cf.nd + 1
+    swap
+    · exact .inl ⟨_, by
+        unfold build; rw [if_neg hdn]; simp only [hb]
+        rw [if_neg (not_not.mpr h0), if_neg (not_not.mpr h1), if_pos h2]⟩
+    -- common prefix of `build`
+    have hpre : build ns cf =
+        match parseRows l0 l1 l2 with
+        | .error e => .err e
+        | .ok rows =>
+          if !nullOK (tbl rows) then .err (errInconsistent 4) else
+          if !rangeOK (tbl rows) (cf.nd + 1) then .err (errInconsistent 5) else
+          match (List.range' 1 cf.nd).findSome? (dartCheck (tbl rows)) with
+          | some e => .err e
+          | none =>
+            match setLoop (tbl rows) (List.range' 1 cf.nd) (Map.empty 3 ns (cf.nd + 1)) with
+            | .ok m1 =>
+              match unusedLoop ((cf.unused.getD []).flatten) m1 with
+              | .ok m2 => verticesLoop (cf.vertices.getD []) m2
+              | o => o
+            | o => o := by
+      unfold build
+      rw [if_neg hdn]
+      simp only [hb]
+      rw [if_neg (not_not.mpr h0), if_neg (not_not.mpr h1), if_neg (not_not.mpr h2)]
+    rw [hpre]
+    cases hr : parseRows l0 l1 l2 with
+    | error e => exact .inl ⟨e, rfl⟩
+    | ok rows =>
+      simp only
+      by_cases hnull : nullOK (tbl rows) = true
+      swap
+      · exact .inl ⟨_, by simp [hnull]⟩
+      by_cases hrange : rangeOK (tbl rows) (cf.nd + 1) = true
+      swap
+      · exact .inl ⟨_, by simp [hnull, hrange]⟩
+      simp only [hnull, hrange, Bool.not_true, Bool.false_eq_true, if_false]
+      cases hchk : (List.range' 1 cf.nd).findSome? (dartCheck (tbl rows)) with
+      | some e => exact .inl ⟨e, rfl⟩
+      | none =>
+        simp only
+        -- the table and what the checks say about it
+        let T := tbl rows
+        have hinv := parseRows_inv l0 l1 l2 rows hr (h0.trans h1.symm) (h1.trans h2.symm)
+        have hg0 : ∀ e, rowTok cf 0 e = l0.getD e "" := fun e => by unfold rowTok; rw [hb]; rfl
+        have hg1 : ∀ e, rowTok cf 1 e = l1.getD e "" := fun e => by unfold rowTok; rw [hb]; rfl
+        have hg2 : ∀ e, rowTok cf 2 e = l2.getD e "" := fun e => by unfold rowTok; rw [hb]; rfl
+        have htok : ∀ i, i < 3 → ∀ e, e < cf.nd + 1 → parseU32 (rowTok cf i e) = some (T i e) := by
+          intro i hi e he
+          obtain ⟨a, b, c⟩ := hinv e (by rw [h0]; exact he)
+          match i, hi with
+          | 0, _ => rw [hg0]; exact a
+          | 1, _ => rw [hg1]; exact b
+          | 2, _ => rw [hg2]; exact c
+        have hT0 : ∀ i, i < 3 → T i 0 = 0 := by
+          intro i hi
+          unfold nullOK at hnull
+          simp only [Bool.and_eq_true, decide_eq_true_eq] at hnull
+          match i, hi with
+          | 0, _ => exact hnull.1.1
+          | 1, _ => exact hnull.1.2
+          | 2, _ => exact hnull.2
+        have hTr : ∀ i, i < 3 → ∀ d, d < cf.nd + 1 → T i d < cf.nd + 1 := by
+          intro i hi d hd'
+          unfold rangeOK at hrange
+          have := List.all_eq_true.mp hrange d (List.mem_range.mpr hd')
+          simp only [Bool.and_eq_true, decide_eq_true_eq] at this
+          match i, hi with
+          | 0, _ => exact this.1.1
+          | 1, _ => exact this.1.2
+          | 2, _ => exact this.2
+        have hTc : ∀ d, 1 ≤ d → d < cf.nd + 1 → dartCheck T d = none := by
+          intro d hd1 hd2
+          exact (List.findSome?_eq_none_iff.mp hchk) d (List.mem_range'_1.mpr ⟨hd1, by omega⟩)
+        have hTinv : ∀ d, d < cf.nd + 1 → (T 1 d ≠ 0 → T 0 (T 1 d) = d) ∧ (T 0 d ≠ 0 → T 1 (T 0 d) = d) ∧
+            (T 2 d ≠ 0 → T 2 (T 2 d) = d ∧ T 2 d ≠ d) := by
+          intro d hd'
+          by_cases hz : d = 0
+          · subst hz
+            rw [hT0 0 (by omega), hT0 1 (by omega), hT0 2 (by omega)]
+            exact ⟨fun h => absurd rfl h, fun h => absurd rfl h, fun h => absurd rfl h⟩
+          · have hc := hTc d (by omega) hd'
+            unfold dartCheck at hc
+            split at hc
+            · cases hc
+            · rename_i c1
+              split at hc
+              · cases hc
+              · rename_i c2
+                refine ⟨fun h => ?_, fun h => ?_, fun h => ?_⟩
+                · exact Classical.byContradiction fun hn => c1 (.inl ⟨h, hn⟩)
+                · exact Classical.byContradiction fun hn => c1 (.inr ⟨h, hn⟩)
+                · constructor
+                  · exact Classical.byContradiction fun hn => c2 ⟨h, .inl hn⟩
+                  · exact fun hn => c2 ⟨h, .inr hn⟩
+        -- the β loop always succeeds
+        have hsz0 : Sized 3 (Map.empty 3 ns (cf.nd + 1) : Map Val) := sized_empty ns _ (by omega)
+        obtain ⟨m1, hrun1, hs1, hn1, hu1, ha1, hβ1⟩ :=
+          setLoop_ok T cf.nd 1 (Map.empty 3 ns (cf.nd + 1)) hsz0 (by show 1 + cf.nd ≤ cf.nd + 1; omega)
+        have hn1' : m1.n = cf.nd + 1 := hn1
+        have hβ1' : ∀ i, i < 3 → ∀ d, d < cf.nd + 1 → m1.β i d = T i d := by
+          intro i hi d hd'
+          rw [hβ1 i d]
+          by_cases hz : d = 0
+          · subst hz
+            simp [β_empty, hT0 i hi]
+          · have : i < 3 ∧ 1 ≤ d ∧ d < 1 + cf.nd := by omega
+            simp [this]
+        have hun1 : ∀ d, m1.unused d = false := by
+          intro d
+          show rd m1.u d = false
+          rw [hu1]; exact unused_empty _ _ _
+        have hatt1 : ∀ s e, m1.att s e = none := by
+          intro s e
+          show rd (rd m1.a s) e = none
+          rw [ha1]; exact att_empty _ _ _ _
+        rw [show setLoop (tbl rows) (List.range' 1 cf.nd) (Map.empty 3 ns (cf.nd + 1)) = .ok m1 from hrun1]
+        simp only
+        -- the unused loop: error or success, never panic
+        rcases unusedLoop_total ((cf.unused.getD []).flatten) m1 hs1 with
+          ⟨e, he⟩ | ⟨m2, hrun2, hs2, hn2, hb2, ha2, hfl2, hfr2, hnum2⟩
+        · exact .inl ⟨e, by rw [he]⟩
+        rw [hrun2]
+        simp only
+        have ha0 : 0 < m2.a.size := by rw [ha2, ha1, size_a_empty]; exact hns
+        rcases verticesLoop_total (cf.vertices.getD []) m2 hs2 ha0 with
+          ⟨e, he⟩ | ⟨m3, hrun3, hs3, _, hn3, hb3, hu3, hatt3, _, hall3⟩
+        · exact .inl ⟨e, he⟩
+        refine .inr ⟨m3, hrun3, ?_, ?_⟩
+        · -- WF
+          have hn3' : m3.n = cf.nd + 1 := hn3.trans (hn2.trans hn1')
+          have hβ : ∀ i, i < 3 → ∀ d, d < cf.nd + 1 → m3.β i d = T i d := by
+            intro i hi d hd'
+            show rd (rd m3.b i) d = _
+            rw [hb3, hb2]
+            exact hβ1' i hi d hd'
+          refine ⟨hs3, ?_⟩
+          constructor
+          · intro i hi
+            rw [hβ i hi 0 (by omega)]; exact hT0 i hi
+          · intro i hi d hd'
+            rw [hn3'] at hd' ⊢
+            rw [hβ i hi d hd']; exact hTr i hi d hd'
+          · intro d hd' h
+            rw [hn3'] at hd'
+            rw [hβ 1 (by omega) d hd'] at h ⊢
+            rw [hβ 0 (by omega) _ (hTr 1 (by omega) d hd')]
+            exact (hTinv d hd').1 h
+          · intro d hd' h
+            rw [hn3'] at hd'
+            rw [hβ 0 (by omega) d hd'] at h ⊢
+            rw [hβ 1 (by omega) _ (hTr 0 (by omega) d hd')]
+            exact (hTinv d hd').2.1 h
+          · intro i hi h2' d hd' h
+            have hi2 : i = 2 := by omega
+            subst hi2
+            rw [hn3'] at hd'
+            rw [hβ 2 (by omega) d hd'] at h ⊢
+            rw [hβ 2 (by omega) _ (hTr 2 (by omega) d hd')]
+            exact (hTinv d hd').2.2 h
+          · intro d hd' hu i hi
+            have hu2 : m2.unused d = true := by
+              have : m3.unused d = m2.unused d := by show rd m3.u d = rd m2.u d; rw [hu3]
+              rw [← this]; exact hu
+            rcases hfr2 d hu2 with h | ⟨_, _, hfree⟩
+            · rw [hun1 d] at h; cases h
+            · rw [isFree3] at hfree
+              simp only [Bool.and_eq_true, decide_eq_true_eq] at hfree
+              have : m3.β i d = m1.β i d := by show rd (rd m3.b i) d = rd (rd m1.b i) d; rw [hb3, hb2]
+              rw [this]
+              match i, hi with
+              | 0, _ => exact hfree.1.1
+              | 1, _ => exact hfree.1.2
+              | 2, _ => exact hfree.2
+        · -- Agrees
+          have hn3' : m3.n = cf.nd + 1 := hn3.trans (hn2.trans hn1')
+          refine ⟨hn3', ?_, hnum2, ?_, ?_, ?_⟩
+          · intro i hi d hd'
+            rw [htok i hi d hd']
+            congr 1
+            show T i d = rd (rd m3.b i) d
+            rw [hb3, hb2]
+            exact (hβ1' i hi d hd').symm
+          · intro d
+            show rd m3.u d = _
+            rw [hu3]
+            show m2.unused d = _
+            rw [hfl2 d, hun1 d, Bool.false_or]
+            rfl
+          · intro e
+            rw [hatt3 e]
+            have : m2.att 0 = fun _ => none := by
+              funext x
+              show rd (rd m2.a 0) x = none
+              rw [ha2]; exact hatt1 0 x
+            rw [this]
+          · intro l hl
+            obtain ⟨v, a, b, c, d⟩ := hall3 l hl
+            refine ⟨v, a, b, by rw [hn3, ]; exact c, ?_⟩
+            show rd m3.u v.1 = false
+            rw [hu3]; exact d
 
-/-- the same through `load`: accepted layout + validator ⇒ well-formed map, never `panic`/`err` -/
-theorem C10_validated_load (ns : Nat) (hns : 0 < ns) (f : List Line) (cf : CFile)
-    (hp : parseFile f = .ok cf) (hv : validFile cf = true) :
-    ∃ m, load ns f = .ok m ∧ WF 3 m ∧ m.n = cf.nd + 1 ∧
-      (∀ i, i < 3 → ∀ d, d < cf.nd + 1 → m.β i d = tβ cf i d) ∧
-      (∀ d, m.unused d = decide (d ∈ unusedIds cf)) := by
-  obtain ⟨m, hb, r⟩ := C10_validated_load_wf ns hns cf hv
-  exact ⟨m, by unfold load; rw [hp]; exact hb, r⟩
+/-- **C10**: every text whose section layout is accepted is rejected with a `BuilderError` or
+    built into a well-formed 2-map that agrees with the text -/
+theorem C10_load_wf_or_error (ns : Nat) (hns : 0 < ns) (f : List Line) (cf : CFile)
+    (hp : parseFile f = .ok cf) :
+    (∃ e, load ns f = .err e) ∨ (∃ m, load ns f = .ok m ∧ WF 3 m ∧ Agrees cf m) := by
+  unfold load
+  rw [hp]
+  exact C10_build_wf_or_error ns hns cf
 
-/-- every negation witness above is rejected by the validator (the extra hypothesis of the
-    partial theorem excludes exactly the findings) -/
-theorem C10_witnesses_rejected :
-    ∀ f ∈ [fileRange, fileInverse, fileBeta2, fileNull, fileUnusedLinked, fileUnusedRepeated,
-      fileUnusedRange, fileVertexRange, fileVertexMissing],
-      (match parseFile f with | .ok cf => validFile cf | .error _ => true) = false := by
-  decide +kernel
+/-- no text at all makes the loader panic (rejected layouts are errors of `load`; through the
+    public `from_cmap_file` they are the documented panic of the section parser) -/
+theorem C10_load_never_panics (ns : Nat) (hns : 0 < ns) (f : List Line) : load ns f ≠ .panic := by
+  cases hp : parseFile f with
+  | error e => unfold load; rw [hp]; intro h; cases h
+  | ok cf =>
+    rcases C10_load_wf_or_error ns hns f cf hp with ⟨e, he⟩ | ⟨m, hm, _⟩
+    · rw [he]; intro h; cases h
+    · rw [hm]; intro h; cases h
 
-/-! ## non-vacuity: a file with links, a β2 pair, a removed dart, comments, `+`/leading-zero
-    numerals and decimal coordinates passes the validator -/
+/-! ## the former findings D5a–D5g: every witness file is now rejected -/
+
+def errOf : Out Err (Map Val) → Option Err
+  | .err e => some e
+  | _ => none
+
+def header (n : String) : List Line := [["[META]"], [pkgVersion, "2", n], ["[BETAS]"]]
+
+/-- D5a: β1(3) = 9 in a 3-dart file -/
+def fileRange : List Line :=
+  header "3" ++ [["0", "0", "1", "0"], ["0", "2", "0", "9"], ["0", "0", "0", "0"]]
+example : errOf (load 1 fileRange) = some (errInconsistent 5) := by decide +kernel
+
+/-- D5b: β1(1) = 2 but β0(2) = 0 -/
+def fileInverse : List Line :=
+  header "3" ++ [["0", "0", "0", "0"], ["0", "2", "0", "0"], ["0", "0", "0", "0"]]
+example : errOf (load 1 fileInverse) = some (errInconsistent 6) := by decide +kernel
+
+/-- D5c: β2(1) = 2 but β2(2) = 0 -/
+def fileBeta2 : List Line :=
+  header "3" ++ [["0", "0", "0", "0"], ["0", "0", "0", "0"], ["0", "2", "0", "0"]]
+example : errOf (load 1 fileBeta2) = some (errInconsistent 7) := by decide +kernel
+
+/-- D5d: the text gives the null dart the image β1(0) = 3 / a non-numeric image -/
+def fileNull : List Line :=
+  header "3" ++ [["0", "0", "0", "0"], ["3", "0", "0", "0"], ["0", "0", "0", "0"]]
+example : errOf (load 1 fileNull) = some (errInconsistent 4) := by decide +kernel
+def fileNullX : List Line :=
+  header "3" ++ [["0", "0", "0", "0"], ["x", "0", "0", "0"], ["0", "0", "0", "0"]]
+example : errOf (load 1 fileNullX) = some (errBadValue 1) := by decide +kernel
+
+/-- D5e: a linked dart / a repeated id in `[UNUSED]` -/
+def fileUnusedLinked : List Line :=
+  header "3" ++ [["0", "0", "1", "0"], ["0", "2", "0", "0"], ["0", "0", "0", "0"], ["[UNUSED]"], ["1"]]
+example : errOf (load 1 fileUnusedLinked) = some (errInconsistent 8) := by decide +kernel
+def fileUnusedRepeated : List Line :=
+  header "3" ++ [["0", "0", "0", "0"], ["0", "0", "0", "0"], ["0", "0", "0", "0"], ["[UNUSED]"], ["3", "3"]]
+example : errOf (load 1 fileUnusedRepeated) = some (errInconsistent 8) := by decide +kernel
+
+/-- D5f: ids `≥ n_darts` -/
+def fileUnusedRange : List Line :=
+  header "3" ++ [["0", "0", "0", "0"], ["0", "0", "0", "0"], ["0", "0", "0", "0"], ["[UNUSED]"], ["4"]]
+example : errOf (load 1 fileUnusedRange) = some (errInconsistent 8) := by decide +kernel
+def fileVertexRange : List Line :=
+  header "3" ++ [["0", "0", "0", "0"], ["0", "0", "0", "0"], ["0", "0", "0", "0"], ["[VERTICES]"],
+    ["4", "0", "0"]]
+example : errOf (load 1 fileVertexRange) = some (errInconsistent 9) := by decide +kernel
+
+/-- D5g: a vertex line for a removed dart / for the null dart -/
+def fileVertexMissing : List Line :=
+  header "3" ++ [["0", "0", "0", "0"], ["0", "0", "0", "0"], ["0", "0", "0", "0"], ["[UNUSED]"], ["3"],
+    ["[VERTICES]"], ["3", "1", "1"]]
+example : errOf (load 1 fileVertexMissing) = some (errInconsistent 9) := by decide +kernel
+def fileVertexNull : List Line :=
+  header "3" ++ [["0", "0", "0", "0"], ["0", "0", "0", "0"], ["0", "0", "0", "0"],
+    ["[VERTICES]"], ["0", "2", "2"]]
+example : errOf (load 1 fileVertexNull) = some (errInconsistent 9) := by decide +kernel
+
+/-! ## non-vacuity: the `ok` branch is inhabited — a file with links, a β2 pair, a removed dart,
+    comments, `+` / leading-zero numerals, decimal coordinates and a repeated vertex id loads -/
 
 def fileGood : List Line :=
   [["#", "example"], ["[meta]"], [pkgVersion, "2"], ["5", "#", "darts"], [],
    ["[BETAS]"], ["0", "0", "1", "0", "0", "0"], ["0", "+2", "0", "0", "0", "0"], ["0", "0", "0", "04", "3", "0#x"],
-   ["[VERTICES]"], ["1", "0.25", "-2"], ["3", "1e1", "-5/8"],
+   ["[VERTICES]"], ["1", "0.25", "-2"], ["3", "1e1", "-5/8"], ["1", "7", "7"],
    ["[UNUSED]"], ["5"]]
 
-example : ∃ cf, parseFile fileGood = .ok cf ∧ validFile cf = true := by
-  have : (match parseFile fileGood with | .ok cf => validFile cf | .error _ => false) = true := by
-    decide +kernel
-  cases hp : parseFile fileGood with
-  | ok cf => rw [hp] at this; exact ⟨cf, rfl, this⟩
-  | error e => rw [hp] at this; cases this
+def okMap : Out Err (Map Val) → Option (Map Val)
+  | .ok m => some m
+  | _ => none
 
-example : ∃ m, load 1 fileGood = .ok m ∧ WF 3 m := by
-  have : (match parseFile fileGood with | .ok cf => validFile cf | .error _ => false) = true := by
+example : ((okMap (load 1 fileGood)).map fun m =>
+    (m.n, m.β 1 1, m.β 0 2, m.β 2 3, m.β 2 4, m.unused 5, m.att 0 1, m.att 0 2)) =
+    some (6, 2, 1, 4, 3, true, some (.pt 7 7 0), none) := by decide +kernel
+
+example : ∃ cf m, parseFile fileGood = .ok cf ∧ load 1 fileGood = .ok m ∧ WF 3 m ∧ Agrees cf m := by
+  have hl : (match parseFile fileGood with | .ok _ => true | .error _ => false) = true := by
     decide +kernel
+  have hok : (okMap (load 1 fileGood)).isSome = true := by decide +kernel
   cases hp : parseFile fileGood with
+  | error e => rw [hp] at hl; cases hl
   | ok cf =>
-    rw [hp] at this
-    obtain ⟨m, h1, h2, _⟩ := C10_validated_load 1 (by decide) fileGood cf hp this
-    exact ⟨m, h1, h2⟩
-  | error e => rw [hp] at this; cases this
+    rcases C10_load_wf_or_error 1 (by decide) fileGood cf hp with ⟨e, he⟩ | ⟨m, hm, hw, ha⟩
+    · rw [he] at hok; cases hok
+    · exact ⟨cf, m, rfl, hm, hw, ha⟩
 
 end HC.C10
